@@ -1,2 +1,35 @@
--- stub: replaced by the C02 driver
-def main : IO Unit := pure ()
+/-
+  Driver.C02 — runs the C02 CodeModel (Golib.Value.Model) on request lines.
+
+    E <value>        →  <hex of encV value>
+    D <hex>          →  ok <value> <rest length>   |  fail        (Value.decode)
+    W <value>        →  1 | 0                                      (wfV: in the scope of the theorems)
+
+  <value> is the one-line form of Golib.Value.Line.
+-/
+import Golib.Value.Line
+import Golib.Value.WF
+import Driver.Common
+
+open Value Drv
+
+def answer (line : String) : String :=
+  match line.splitOn " " with
+  | ["E", v] =>
+    match Line.readV v with
+    | some v => hexOf (encV v)
+    | none => "bad-op"
+  | ["D", hex] =>
+    match ofHex hex with
+    | some bs =>
+      match Value.decode bs with
+      | some (v, rest) => s!"ok {Line.showV v} {rest.length}"
+      | none => "fail"
+    | none => "bad-op"
+  | ["W", v] =>
+    match Line.readV v with
+    | some v => if wfV v then "1" else "0"
+    | none => "bad-op"
+  | _ => "bad-op"
+
+def main : IO Unit := statelessLoop answer
